@@ -15,6 +15,7 @@ type Profile struct {
 	Keys        []string
 	Weights     map[OpKind]int
 	FailPct     int // share of deliberately failing requests
+	PoolPct     int // share of bodies drawn from the small shared pool (dedup collisions); 0 = 25
 	MaxBody     int // upper bound for "large" bodies
 	BigBodyPct  int // chance of a large body
 	MetaPct     int // chance that a write carries metadata/tags/class
@@ -129,8 +130,12 @@ func (g *Gen) mkBody(size int, kind int) []byte {
 
 func (g *Gen) body() []byte {
 	r := g.R
+	pool := g.P.PoolPct
+	if pool == 0 {
+		pool = 25
+	}
 	switch {
-	case r.Chance(25):
+	case r.Chance(pool):
 		return vkit.Pick(r, g.bodyPool)
 	case r.Chance(g.P.BigBodyPct) && g.P.MaxBody > 200000:
 		return g.mkBody(r.Range(200000, g.P.MaxBody), r.Intn(4))
